@@ -618,16 +618,36 @@ def make_pool(n: int):
 # ------------------------------------------------------------------------------------- judging
 CFG_ENUM = """SPECIFICATION Spec
 CONSTANTS Source = "enum"
+          DeprecateQuoting = "{quoting}"
 CONSTRAINT EmitEnum
-INVARIANT NeverParsedRaw
+INVARIANT {raw}
+INVARIANT {rst}
 INVARIANT SinkLevelOne
 INVARIANT WellTyped
 INVARIANT SameAsWalk
 """
 CFG_FILE = """SPECIFICATION Spec
 CONSTANTS Source = "file"
+          DeprecateQuoting = "{quoting}"
 CONSTRAINT EmitFile
 """
+KF_DEPRECATE = "deprecate-replacement-reparsed-as-rst"
+MODELLED_LINESEP = ("cr", "fs", "gs", "rs", "nel", "ls", "ps")     # vt / ff additionally make html2stan raise
+
+
+def kf_deprecate_reparsed(w: Dict[str, Any]) -> bool:
+    """Known finding: extensions/deprecate.py pastes a non-identifier replacement= string into reST source after
+    replacing only "\\n"; behind any other line separator docutils reads reST structure (a raw directive copies HTML
+    into the page), and a double backtick ends the literal (an embedded-URI reference becomes a link).  Matches ONLY
+    violations of the `deprecated` source kind whose payload holds such a separator followed by a directive, or a
+    backtick, and whose skeleton difference is on the pages showing the deprecation box."""
+    if w.get("kind") != "deprecated" or w.get("invariant") not in ("SkeletonEqual", "CanaryAppears"):
+        return False
+    p = w.get("payload", "")
+    via_sep = any(c + ".. " in p for c in LINE_SEPARATORS.values())
+    via_backtick = "``" in p
+    return via_sep or via_backtick
+
 
 RANDOM_TOKENS = ["<", ">", "&", "\"", "'", "&lt;", "&amp;", "&#60;", "&#x3c;", "&quot;", "]]>", "-->", "<!--", "<![CDATA[",
                  "<b>", "</b>", "<i/>", "<script>", "</script>", "<a href=\"x\">", "<img src=x onerror=y>", "=", ";", "#",
@@ -703,25 +723,37 @@ def jobs_for(scratch: Path, kind: str, variant: str, payload: str) -> Tuple[Dict
 def run(ctx: Ctx) -> int:
     rng = random.Random(ctx.seed)
     # ---- spec -> code: every (kind, sink) pair of Escape.tla
-    r = ctx.tlc("Escape", CFG_ENUM, workers=4, check=True, coverage=ctx.quick, timeout=600)
+    ctx.register_matcher(KF_DEPRECATE, kf_deprecate_reparsed)
+
+    def enumerate_model(quoting: str, count: bool = True):
+        rr = ctx.tlc("Escape", CFG_ENUM.format(quoting=quoting, raw="NeverParsedRawExceptKnown", rst="NeverReparsedAsMarkupExceptKnown"),
+                     workers=4, check=True, coverage=ctx.quick and count, timeout=600, count=count)
+        if not rr.printed:
+            raise MachineryError("Escape.tla printed no (kind, sink) pair")
+        if rr.violated:
+            raise MachineryError(f"Escape.tla violates its invariants outside the known finding: {rr.violated}")
+        mdl: Dict[Tuple[str, str], Dict[str, Any]] = {}
+        for pr in rr.printed:
+            m = mdl.setdefault((pr["kind"], pr["cls"]), {"sinks": set(), "steps": set(), "pairs": []})
+            if pr["reaches"]:
+                m["sinks"].add((pr["zone"], pr["ctx"], bool(pr["quoted"]), pr["final"]))
+            m["steps"] |= {tuple(x) for x in pr["steps"]}
+            m["pairs"].append(pr)
+        return rr, mdl
+
+    quoting = "newline_only"
+    r, model = enumerate_model(quoting)
     pairs = r.printed
-    if not pairs:
-        raise MachineryError("Escape.tla printed no (kind, sink) pair")
     ctx.exhaustive = True
-    ctx.extra["design_level_invariants_violated"] = list(r.violated)
-    model: Dict[Tuple[str, str], Dict[str, Any]] = {}
-    for pr in pairs:
-        m = model.setdefault((pr["kind"], pr["cls"]), {"sinks": set(), "steps": set(), "pairs": []})
-        if pr["reaches"]:
-            m["sinks"].add((pr["zone"], pr["ctx"], bool(pr["quoted"]), pr["final"]))
-        m["steps"] |= {tuple(x) for x in pr["steps"]}
-        m["pairs"].append(pr)
     unknown = sorted({k for k, _ in model} - set(KINDS))
     if unknown:
         raise MachineryError(f"Escape.tla enumerates source kinds the harness cannot plant: {unknown}")
     kinds = [k for k in KINDS if (k, "plain") in model]
     plan: List[Tuple[str, str, str, bool]] = [(k, v, p, True) for k in kinds for v, p in VARIANTS.items()]
     plan += [(k, v, p, False) for k in kinds for v, p in UNMODELLED_VARIANTS.items()]
+    if "deprecated" in kinds:
+        plan += [("deprecated", f"linesep-{n}", linesep_payload(c), n in MODELLED_LINESEP) for n, c in LINE_SEPARATORS.items()]
+        plan += [("deprecated", "backtick-link", MARK + "<x`` `click" + MARK + " <javascript:alert(1)>`_ ``" + END, False)]
     for k in kinds:
         for i in range(2 if ctx.quick else 100):
             plan.append((k, f"random{i}", random_payload(rng), False))
@@ -766,8 +798,8 @@ def run(ctx: Ctx) -> int:
                 observed_records.append(None)
             continue
         not_intact += sum(1 for o in can["occ"] if o["level"] == -1)
-        cls = payload_class(can["payload"])
-        for b in judge_pair(can, pla, strict_appears=modelled and bool(model[(k, cls)]["sinks"])):
+        cls = payload_class(can["payload"], k)
+        for b in judge_pair(can, pla, strict_appears=modelled and bool(model.get((k, cls), {"sinks": set()})["sinks"])):
             if b["invariant"] == "SkeletonEqual":
                 b["where"] = skeleton_diff(jobs[2 * i], jobs[2 * i + 1], b["page"])
             ctx.violation({**b, "kind": k, "variant": v, "payload": can["payload"], "placeholder": pla["payload"],
@@ -775,20 +807,44 @@ def run(ctx: Ctx) -> int:
         sinks = sink_set(can)
         events = [list(e) for e in can["events"]]
         if modelled:
-            m = model[(k, cls)]
-            obs_s = {tuple(x) for x in sinks if x[3] != -1}
-            obs_e = {tuple(e) for e in events}
-            d = {"sinks_not_in_model": sorted(obs_s - m["sinks"], key=str), "model_sinks_not_seen": sorted(m["sinks"] - obs_s, key=str),
-                 "steps_not_in_model": sorted(obs_e - m["steps"], key=str), "model_steps_not_seen": sorted(m["steps"] - obs_e, key=str)}
-            twin.append(d)
-            if any(d.values()):
-                ctx.drift_note({"kind": k, "variant": v, "payload_class": cls, **{a: b for a, b in d.items() if b}})
-            for s in obs_s:
-                pair_seen.setdefault((k, cls, s[0], s[1], s[2]), set()).add(s[3])
+            twin.append("pending")
             observed_records.append({"kind": k, "variant": v, "cls": cls, "sinks": [list(x) for x in sinks if x[3] != -1], "events": events})
         if i % 11 == 0:
             ctx.sample({"kind": k, "variant": v, "payload": can["payload"], "sinks": sinks[:6], "events": events,
                         "pages": len(can["pages"]), "skeleton_equal": not any(b["invariant"] == "SkeletonEqual" for b in judge_pair(can, pla, False))})
+    def conform(mdl: Dict[Tuple[str, str], Dict[str, Any]]) -> List[Any]:
+        out: List[Any] = []
+        for o in observed_records:
+            if o is None:
+                out.append(None)
+                continue
+            m = mdl.get((o["kind"], o["cls"]), {"sinks": set(), "steps": set()})
+            obs_s = {tuple(x) for x in o["sinks"]}
+            obs_e = {tuple(e) for e in o["events"]}
+            out.append({"sinks_not_in_model": sorted(obs_s - m["sinks"], key=str), "model_sinks_not_seen": sorted(m["sinks"] - obs_s, key=str),
+                        "steps_not_in_model": sorted(obs_e - m["steps"], key=str), "model_steps_not_seen": sorted(m["steps"] - obs_e, key=str)})
+        return out
+
+    ndrift = lambda ds: sum(1 for d in ds if d and any(d.values()))
+    twin = conform(model)
+    if any(d and any(d.values()) and o["kind"] == "deprecated" and o["cls"] == "linesep" for d, o in zip(twin, observed_records) if o):
+        # which transcription of the replacement= quoting does the code follow?  both live in the spec
+        r_alt, model_alt = enumerate_model("all_separators", count=False)
+        twin_alt = conform(model_alt)
+        if ndrift(twin_alt) < ndrift(twin):
+            quoting, model, twin, pairs = "all_separators", model_alt, twin_alt, r_alt.printed
+    ctx.extra["deprecate_quoting_variant_followed_by_code"] = quoting
+    # design level: the strict invariants on the model of the code as it is (never a verdict by itself)
+    strict = ctx.tlc("Escape", CFG_ENUM.format(quoting=quoting, raw="NeverParsedRaw", rst="NeverReparsedAsMarkup"), workers=1,
+                     timeout=600, count=False, extra=["-continue"])
+    ctx.extra["design_level_invariants_violated"] = sorted(set(strict.violated))
+    for d, o in zip(twin, observed_records):
+        if o is None:
+            continue
+        if any(d.values()):
+            ctx.drift_note({"kind": o["kind"], "variant": o["variant"], "payload_class": o["cls"], **{a: b for a, b in d.items() if b}})
+        for s in o["sinks"]:
+            pair_seen.setdefault((o["kind"], o["cls"], s[0], s[1], bool(s[2])), set()).add(s[3])
     # every enumerated pair must have been met in the real pages, at the level the model says
     unmet = [[pr["kind"], pr["cls"], pr["zone"], pr["ctx"], pr["quoted"]] for pr in pairs if pr["reaches"]
              and pr["final"] not in pair_seen.get((pr["kind"], pr["cls"], pr["zone"], pr["ctx"], bool(pr["quoted"])), set())]
@@ -805,7 +861,7 @@ def run(ctx: Ctx) -> int:
     twin = [twin[i] for i in keep]
     f = ctx.scratch / "observed.json"
     f.write_text(json.dumps(observed_records))
-    r2 = ctx.tlc("Escape", CFG_FILE, workers=1, env={"C10_OBSERVED": str(f)}, check=True, timeout=600)
+    r2 = ctx.tlc("Escape", CFG_FILE.format(quoting=quoting), workers=1, env={"C10_OBSERVED": str(f)}, check=True, timeout=600)
     got = {x["n"]: x for x in r2.printed}
     if len(got) != len(observed_records):
         raise MachineryError(f"TLC judged {len(got)} of {len(observed_records)} observed flows")
@@ -837,7 +893,7 @@ def run(ctx: Ctx) -> int:
     broken[0]["sinks"][0][3] = 2
     broken[0]["events"].append(["ParseXml", 0, 0])
     f.write_text(json.dumps(broken))
-    r3 = ctx.tlc("Escape", CFG_FILE, workers=1, env={"C10_OBSERVED": str(f)}, check=True, count=False)
+    r3 = ctx.tlc("Escape", CFG_FILE.format(quoting=quoting), workers=1, env={"C10_OBSERVED": str(f)}, check=True, count=False)
     nc["tlc_rejects_corrupted_observation"] = (not r3.printed[0]["sinkLevelOne"]) and (not r3.printed[0]["neverParsedRaw"]) \
         and bool(r3.printed[0]["stepsNotInModel"])
     # a page in which the canary is written raw must be caught by the crawler (skeleton / well-formedness)
